@@ -21,6 +21,12 @@ fn a(s: &str) -> Alias {
     Alias::new(s)
 }
 
+static DISTINCT_SQL: std::sync::Mutex<Option<std::collections::HashSet<u128>>> = std::sync::Mutex::new(None);
+/// count distinct rendered statements (fingerprints)
+fn note_sql(sql: &str) {
+    DISTINCT_SQL.lock().unwrap().get_or_insert_with(Default::default).insert(crate::util::fp_str(sql));
+}
+
 #[derive(Clone, Debug, PartialEq)]
 pub enum T {
     Char(Option<u32>),
@@ -250,6 +256,9 @@ pub enum CS {
 }
 pub const ALL_SPECS: [CS; 11] = [CS::Null, CS::NotNull, CS::DefaultInt, CS::DefaultStr, CS::AutoIncrement, CS::UniqueKey, CS::PrimaryKey, CS::Check, CS::GeneratedStored, CS::Extra, CS::Comment];
 
+/// a quote, a backslash in the middle and a backslash at the very end
+const COMMENT_TEXT: &str = "a 'c' \\x\\";
+
 fn apply_spec(c: &mut ColumnDef, s: CS, d: Dialect) {
     match s {
         CS::Null => c.null(),
@@ -262,7 +271,7 @@ fn apply_spec(c: &mut ColumnDef, s: CS, d: Dialect) {
         CS::Check => c.check(Expr::col(a("c")).ne(13)),
         CS::GeneratedStored => c.generated(Expr::col(a("k")).add(1), true),
         CS::Extra => c.extra(if d == Dialect::Mysql { "COLLATE utf8mb4_bin" } else { "COLLATE \"C\"" }),
-        CS::Comment => c.comment("a 'comment'"),
+        CS::Comment => c.comment(COMMENT_TEXT),
     };
 }
 
@@ -290,7 +299,7 @@ fn expect_spec(s: CS, d: Dialect) -> Option<PSpec> {
         CS::Extra => PSpec::Collate(if d == Dialect::Mysql { "utf8mb4_bin".into() } else { "C".into() }),
         CS::Comment => {
             if d == Dialect::Mysql {
-                PSpec::Comment("a 'comment'".into())
+                PSpec::Comment(COMMENT_TEXT.into())
             } else {
                 return None; // PostgreSQL has no inline column comment
             }
@@ -351,6 +360,7 @@ fn check_column_case(d: Dialect, t: &T, specs: &[CS]) -> Result<bool, (String, S
             return if t.accepts(d, specs.contains(&CS::AutoIncrement), &PType::default()).is_none() { Ok(false) } else { Err(("render-panic".into(), format!("rendering panicked: {p}"))) };
         }
     };
+    note_sql(&sql);
     let st = parse_ddl(d, &sql).map_err(|e| ("does-not-parse".to_string(), format!("{sql:?}: {e}")))?;
     let PStmt::CreateTable(ct) = st else { return Err(("wrong-statement".into(), format!("{sql:?} parsed as another statement"))) };
     if ct.cols.len() != 2 || !ct.elems.is_empty() {
@@ -359,6 +369,7 @@ fn check_column_case(d: Dialect, t: &T, specs: &[CS]) -> Result<bool, (String, S
     let r = check_col(d, &ct.cols[1], t, specs).map_err(|(s, m)| (s, format!("{sql:?}: {m}")))?;
     // the same definition through ALTER TABLE ADD COLUMN
     if let Ok(sql2) = render!(d, Table::alter().table(a("t")).add_column(col)) {
+        note_sql(&sql2);
         let st = parse_ddl(d, &sql2).map_err(|e| ("does-not-parse".to_string(), format!("{sql2:?}: {e}")))?;
         match st {
             PStmt::AlterTable { actions, .. } if actions.len() == 1 => match &actions[0] {
@@ -385,6 +396,7 @@ pub struct TableS {
     plain_index: bool,
     fulltext: bool,
     fk: Option<(Option<ForeignKeyAction>, Option<ForeignKeyAction>)>,
+    fk_named: bool,
     check: bool,
     options: u8, // bit 0 engine, bit 1 collate, bit 2 charset (MySQL)
     comment: bool,
@@ -439,7 +451,10 @@ fn check_table(d: Dialect, t: &TableS) -> Result<bool, (String, String)> {
         }
         if let Some((od, ou)) = &t.fk {
             let mut f = ForeignKey::create();
-            f.name("fk1").from(a("t"), a("a")).to(a("p"), a("id"));
+            if t.fk_named {
+                f.name("fk1");
+            }
+            f.from(a("t"), a("a")).to(a("p"), a("id"));
             if let Some(x) = od {
                 f.on_delete(*x);
             }
@@ -461,11 +476,12 @@ fn check_table(d: Dialect, t: &TableS) -> Result<bool, (String, String)> {
             s.character_set("utf8mb4");
         }
         if t.comment {
-            s.comment("tbl 'c'");
+            s.comment(COMMENT_TEXT);
         }
         s
     })
     .map_err(|p| ("render-panic".to_string(), format!("rendering panicked: {p}")))?;
+    note_sql(&sql);
     let st = parse_ddl(d, &sql).map_err(|e| ("does-not-parse".to_string(), format!("{sql:?}: {e}")))?;
     let PStmt::CreateTable(ct) = st else { return Err(("wrong-statement".into(), format!("{sql:?} parsed as another statement"))) };
     let mut want_elems: Vec<PElem> = vec![];
@@ -484,7 +500,7 @@ fn check_table(d: Dialect, t: &TableS) -> Result<bool, (String, String)> {
         want_elems.push(PElem::Index { name: Some("ft".into()), cols: vec![kp("b")], fulltext: true, using: None });
     }
     if let Some((od, ou)) = &t.fk {
-        want_elems.push(PElem::ForeignKey(PFk { name: Some("fk1".into()), cols: vec!["a".into()], ref_table: vec!["p".into()], ref_cols: vec!["id".into()], on_delete: od.map(act), on_update: ou.map(act) }));
+        want_elems.push(PElem::ForeignKey(PFk { name: if t.fk_named { Some("fk1".into()) } else { None }, cols: vec!["a".into()], ref_table: vec!["p".into()], ref_cols: vec!["id".into()], on_delete: od.map(act), on_update: ou.map(act) }));
     }
     if t.check {
         want_elems.push(PElem::Check(PExpr::Bin(">".into(), Box::new(col_ref("a")), Box::new(PExpr::Num("0".into())))));
@@ -508,7 +524,7 @@ fn check_table(d: Dialect, t: &TableS) -> Result<bool, (String, String)> {
     }
     let mut want_opts: Vec<(String, String)> = vec![];
     if t.comment {
-        want_opts.push(("COMMENT".into(), "tbl 'c'".into()));
+        want_opts.push(("COMMENT".into(), COMMENT_TEXT.into()));
     }
     if t.options & 1 != 0 {
         want_opts.push(("ENGINE".into(), "InnoDB".into()));
@@ -540,6 +556,7 @@ pub enum AOp {
     RenameColumn,
     DropColumn,
     AddForeignKey,
+    AddForeignKeyUnnamed,
     DropForeignKey,
 }
 
@@ -587,6 +604,7 @@ fn expected_actions(d: Dialect, op: &AOp) -> Option<Vec<PAlter>> {
         AOp::RenameColumn => vec![PAlter::RenameColumn("r1".into(), "r2".into())],
         AOp::DropColumn => vec![PAlter::DropColumn("d1".into())],
         AOp::AddForeignKey => vec![PAlter::AddForeignKey(PFk { name: Some("fk2".into()), cols: vec!["a".into()], ref_table: vec!["p".into()], ref_cols: vec!["id".into()], on_delete: Some("CASCADE".into()), on_update: None })],
+        AOp::AddForeignKeyUnnamed => vec![PAlter::AddForeignKey(PFk { name: None, cols: vec!["a".into()], ref_table: vec!["p".into()], ref_cols: vec!["id".into()], on_delete: None, on_update: Some("SET NULL".into()) })],
         AOp::DropForeignKey => vec![if d == Dialect::Mysql { PAlter::DropForeignKey("fk3".into()) } else { PAlter::DropConstraint("fk3".into()) }],
     })
 }
@@ -618,6 +636,9 @@ fn apply_aop(s: &mut TableAlterStatement, op: &AOp, d: Dialect) {
         AOp::AddForeignKey => {
             s.add_foreign_key(TableForeignKey::new().name("fk2").from_tbl(a("t")).from_col(a("a")).to_tbl(a("p")).to_col(a("id")).on_delete(ForeignKeyAction::Cascade));
         }
+        AOp::AddForeignKeyUnnamed => {
+            s.add_foreign_key(TableForeignKey::new().from_tbl(a("t")).from_col(a("a")).to_tbl(a("p")).to_col(a("id")).on_update(ForeignKeyAction::SetNull));
+        }
         AOp::DropForeignKey => {
             s.drop_foreign_key(a("fk3"));
         }
@@ -644,6 +665,7 @@ fn check_alter(d: Dialect, ops: &[AOp]) -> Result<bool, (String, String)> {
         s
     })
     .map_err(|p| ("render-panic".to_string(), format!("rendering panicked: {p}")))?;
+    note_sql(&sql);
     let st = parse_ddl(d, &sql).map_err(|e| ("does-not-parse".to_string(), format!("{sql:?}: {e}")))?;
     match st {
         PStmt::AlterTable { name, actions } => {
@@ -744,6 +766,7 @@ fn other_cases(d: Dialect) -> Vec<(String, Result<String, String>, Option<PStmt>
             v.push((format!("create-foreign-key {:?}/{:?}", od, ou), sql, Some(PStmt::AlterTable { name: t(), actions: vec![PAlter::AddForeignKey(PFk { name: Some("fk".into()), cols: vec!["a".into(), "b".into()], ref_table: vec!["p".into()], ref_cols: vec!["x".into(), "y".into()], on_delete: od.map(act), on_update: ou.map(act) })] })));
         }
     }
+    v.push(("create-foreign-key unnamed".into(), render!(d, ForeignKey::create().from(a("t"), a("a")).to(a("p"), a("x")).on_delete(ForeignKeyAction::Cascade)), Some(PStmt::AlterTable { name: t(), actions: vec![PAlter::AddForeignKey(PFk { name: None, cols: vec!["a".into()], ref_table: vec!["p".into()], ref_cols: vec!["x".into()], on_delete: Some("CASCADE".into()), on_update: None })] })));
     v.push(("drop-foreign-key".into(), render!(d, ForeignKey::drop().name("fk").table(a("t"))), Some(PStmt::AlterTable { name: t(), actions: vec![if pg { PAlter::DropConstraint("fk".into()) } else { PAlter::DropForeignKey("fk".into()) }] })));
     // rename / drop / truncate
     v.push(("rename-table".into(), render!(d, Table::rename().table(a("t"), a("u"))), Some(PStmt::RenameTable { from: t(), to: vec!["u".into()] })));
@@ -894,22 +917,25 @@ pub fn run(rep: &Arc<Report>) {
     for d in [Dialect::Mysql, Dialect::Postgres] {
         for mask in 0u32..(1 << 8) {
             for pk in 0..3u8 {
-                let base = TableS { temporary: mask & 1 != 0, if_not_exists: mask & 2 != 0, pk, unique: mask & 4 != 0, plain_index: mask & 8 != 0, fulltext: mask & 16 != 0, fk: None, check: mask & 32 != 0, options: 0, comment: mask & 64 != 0 };
+                let base = TableS { temporary: mask & 1 != 0, if_not_exists: mask & 2 != 0, pk, unique: mask & 4 != 0, plain_index: mask & 8 != 0, fulltext: mask & 16 != 0, fk: None, fk_named: true, check: mask & 32 != 0, options: 0, comment: mask & 64 != 0 };
                 if mask & 128 == 0 {
                     tables.push((d, base.clone()));
                 } else {
                     for od in acts {
                         for ou in acts {
-                            let mut t = base.clone();
-                            t.fk = Some((od, ou));
-                            tables.push((d, t));
+                            for named in [true, false] {
+                                let mut t = base.clone();
+                                t.fk = Some((od, ou));
+                                t.fk_named = named;
+                                tables.push((d, t));
+                            }
                         }
                     }
                 }
             }
         }
         for options in 1..8u8 {
-            tables.push((d, TableS { temporary: false, if_not_exists: false, pk: 1, unique: false, plain_index: false, fulltext: false, fk: None, check: false, options, comment: options % 2 == 0 }));
+            tables.push((d, TableS { temporary: false, if_not_exists: false, pk: 1, unique: false, plain_index: false, fulltext: false, fk: None, fk_named: true, check: false, options, comment: options % 2 == 0 }));
         }
     }
     par_items(&tables, |_w, (d, t)| {
@@ -965,7 +991,7 @@ pub fn run(rep: &Arc<Report>) {
         }
     });
     // (3) ALTER sequences
-    let mut menu = vec![AOp::AddColumn, AOp::AddColumnIfNotExists, AOp::RenameColumn, AOp::DropColumn, AOp::AddForeignKey, AOp::DropForeignKey];
+    let mut menu = vec![AOp::AddColumn, AOp::AddColumnIfNotExists, AOp::RenameColumn, AOp::DropColumn, AOp::AddForeignKey, AOp::AddForeignKeyUnnamed, AOp::DropForeignKey];
     let mperms = perms_of_subsets(ALL_SPECS.len(), 2);
     for p in &mperms {
         let specs: Vec<CS> = p.iter().map(|i| ALL_SPECS[*i]).collect();
@@ -1058,6 +1084,7 @@ pub fn run(rep: &Arc<Report>) {
                     continue;
                 }
             };
+            note_sql(&sql);
             match parse_ddl(d, &sql) {
                 Err(e) => record("statement", d, "does-not-parse", name.split(' ').next().unwrap_or("").to_string() + " " + &name.split(' ').skip(1).collect::<Vec<_>>().join(" "), format!("{name}: {sql:?}: {e}"), json!({"kind": "statement", "dialect": d.name(), "name": name})),
                 Ok(got) => {
@@ -1079,8 +1106,9 @@ pub fn run(rep: &Arc<Report>) {
     rep.set("evaluations", json!(evals.get()));
     rep.set("out_of_domain_documented_unsupported", json!(ood.get()));
     rep.set("traces_validated_against_impl", json!(evals.get() - ood.get()));
-    rep.set("distinct_nontrivial", json!(evals.get() - ood.get()));
-    rep.set("rule", json!("each enumerated declaration is rendered by the real backend and parsed by the dialect's reference DDL parser; distinct by construction; out-of-domain = combinations the backend documents as unsupported"));
+    let distinct = DISTINCT_SQL.lock().unwrap().as_ref().map(|s| s.len()).unwrap_or(0);
+    rep.set("distinct_nontrivial", json!(distinct));
+    rep.set("rule", json!("each enumerated declaration is rendered by the real backend and parsed by the dialect's reference DDL parser; distinct_nontrivial = distinct rendered statement texts (fingerprints); out-of-domain = combinations the backend documents as unsupported"));
     rep.set("exhaustive", json!(true));
     rep.sample(json!({"postgres": Table::create().table(a("t")).col(ColumnDef::new(a("c")).big_integer().auto_increment().primary_key()).to_string(PostgresQueryBuilder), "mysql": Table::create().table(a("t")).col(ColumnDef::new(a("c")).small_unsigned().not_null().default(7)).to_string(MysqlQueryBuilder)}));
     rep.assume("MySQL 8.0 and PostgreSQL DDL grammar and type names transcribed from the manuals' statement synopses (no engine offline); features documented as MySQL-only (table options, comments, plain / fulltext inline indexes) are out of domain on PostgreSQL");
